@@ -80,5 +80,10 @@ Export == PrintT("REPLAY " \o ToJson([ops |-> log, cfg |-> [retention |-> Retent
 (* the action property of History.tla over the variables of this module *)
 ErasedStaysErasedMC == [][\A k \in Keys : May(k, visible)' \cap OfKey(hist, k) \subseteq May(k, visible)]_mcvars
 
+(* Teeth run (Impl = "pinned", Known = {}): the model of the code before the repairs must still violate the   *)
+(* read-path properties; every violating state is exported and replayed on the code as it is now, where it  *)
+(* must NOT fail (checks/c10.py).                                                                           *)
+Teeth == (ReadPathOK /\ LimitOK) \/ (Export /\ FALSE)
+
 View == <<vars, nflush, ncompact, nreopen, ntick>>
 =============================================================================
